@@ -137,6 +137,12 @@ def category_choice(prog, rep):
         rep.check(ok, "PICK", fi.short, f"matches for {key}", f"[cls for cls, rule in {classes} if rule.match({e})]", why, fi.loc())
 
 
+def _resolve_flags(e, fi):
+    from ..trace import resolve
+
+    return resolve(e, fi)
+
+
 def rule_match(prog, rep):
     rep.rule("MATCH", "Rule: an empty/absent regex compiles to None and match() is False then; candidate values are data.get(k) for select_keys, else all values; only str values are tested; the test is a found-anywhere regex call (search/findall/finditer); re.IGNORECASE is passed exactly when ignore_case is truthy")
     init = prog.func("Rule.__init__")
@@ -178,7 +184,7 @@ def rule_match(prog, rep):
             ok, why = False, "self.regex is not assigned on every path"
         elif (rx, True) in lits:
             v = inline_simple_locals(val, init)
-            good = isinstance(v, ast.Call) and norm(v.func) == "re.compile" and len(v.args) == 2 and norm(v.args[0]) == rx and norm(inline_simple_locals(v.args[1], init)) in FLAGS
+            good = isinstance(v, ast.Call) and norm(v.func) == "re.compile" and len(v.args) == 2 and norm(v.args[0]) == rx and norm(_resolve_flags(v.args[1], init)) in FLAGS
             if not good:
                 ok, why = False, f"for a non-empty regex self.regex is `{norm(v)[:100]}`: it must be re.compile(<the regex text>, flags) with re.IGNORECASE exactly when ignore_case is truthy"
         elif (rx, False) in lits:
